@@ -110,6 +110,9 @@ func encodeJustify(buf *bytes.Buffer, block *pb.InternalBlock) error {
 // VerifyMerkle
 func VerifyMerkle(block *pb.InternalBlock) error {
 	blockid := block.Blockid
+	if int(block.TxCount) != len(block.Transactions) {
+		return fmt.Errorf("tx count is wrong, block id:%s, tx count:%d, transactions:%d", utils.F(blockid), block.TxCount, len(block.Transactions))
+	}
 	merkleTree := MakeMerkleTree(block.Transactions)
 	if len(merkleTree) > 0 {
 		merkleRoot := merkleTree[len(merkleTree)-1]
